@@ -23,6 +23,11 @@ type c15Case struct {
 	// Surplus: striped calls with more slices than channels: 1 = the surplus slices are empty, 2 = nil
 	// (0: every slice has three elements)
 	Surplus int `json:"surplus,omitempty"`
+	// EqLen: conv/append with buffers of C1 x C2 and C2 x C1 samples: different channel counts, the same
+	// total length (and the same total capacity)
+	EqLen bool `json:"eq_len,omitempty"`
+	// Ragged: striped calls whose slices have lengths 1, 5, 2, 4, ... (shorter and longer than the buffer)
+	Ragged bool `json:"ragged,omitempty"`
 }
 
 // snapshot of a buffer: shape + every sample over its capacity
@@ -78,6 +83,9 @@ func c15RunRaw(cs c15Case) (fs []F) {
 	case "conv", "append":
 		a := mk(s, cs.C1, 2, 3, 1)
 		b := mk(d, cs.C2, 2, 3, 40)
+		if cs.EqLen {
+			a, b = mk(s, cs.C1, cs.C2, cs.C2+1, 1), mk(d, cs.C2, cs.C1, cs.C1+1, 40)
+		}
 		sa, sb := takeSnap(a), takeSnap(b)
 		var p bool
 		if cs.Fn == "conv" {
@@ -162,9 +170,14 @@ func c15RunRaw(cs c15Case) (fs []F) {
 		}
 		sn := takeSnap(buf)
 		sls := make([]dyn.Sl, cs.C2)
+		dyn.TakeCallerDamage()
 		for i := range sls {
-			sls[i] = dyn.NewSl(st, 3)
-			for k := 0; k < 3; k++ {
+			n := 3
+			if cs.Ragged {
+				n = []int{1, 5, 2, 4, 0, 3}[i%6]
+			}
+			sls[i] = dyn.NewSl(st, n)
+			for k := 0; k < n; k++ {
 				sls[i].Set(k, dyn.Tok(st, tk(int64(60+i*3+k))))
 			}
 			if i >= cs.C1 && cs.Surplus == 1 {
@@ -184,6 +197,9 @@ func c15RunRaw(cs c15Case) (fs []F) {
 		}
 		if df := sn.diff(buf); df != "" {
 			fail("modified", "buffer: %s", df)
+		}
+		if d := dyn.TakeCallerDamage(); d != "" {
+			fail("modified", "caller's slices: %s", d)
 		}
 		for i := range sls {
 			for k := 0; k < sls[i].Len(); k++ {
@@ -246,12 +262,22 @@ func init() {
 							}
 						}
 					}
+					// different channel counts, equal total lengths and capacities
+					for _, cc := range [][2]int{{2, 3}, {3, 2}, {1, 4}, {4, 1}, {2, 4}} {
+						cases = append(cases, c15Case{Fn: "conv", S: tn(s), D: tn(d), C1: cc[0], C2: cc[1], EqLen: true})
+						if s == d {
+							cases = append(cases, c15Case{Fn: "append", S: tn(s), D: tn(d), C1: cc[0], C2: cc[1], EqLen: true})
+						}
+					}
 					// striped I/O: slice counts 0..5 (and a nil outer slice) against 1..4 channels
 					for ch := 1; ch <= 4; ch++ {
 						for n := 0; n <= 5; n++ {
 							if n != ch {
 								cases = append(cases, c15Case{Fn: "rstriped", S: tn(s), D: tn(d), C1: ch, C2: n})
 								cases = append(cases, c15Case{Fn: "wstriped", S: tn(s), D: tn(d), C1: ch, C2: n})
+								if n > 0 {
+									cases = append(cases, c15Case{Fn: "rstriped", S: tn(s), D: tn(d), C1: ch, C2: n, Ragged: true}, c15Case{Fn: "wstriped", S: tn(s), D: tn(d), C1: ch, C2: n, Ragged: true})
+								}
 							}
 						}
 						cases = append(cases, c15Case{Fn: "rstriped", S: tn(s), D: tn(d), C1: ch, Nil: true})
